@@ -34,16 +34,16 @@ Theorem bitwise_module_not x sp ip h w : runG rec value ip h w (module_body [5; 
 Proof. reflexivity. Qed.
 
 (* codec built-in on an evaluated integer / byte string argument *)
-Theorem codec_body_encodes scheme w big sp n ip h wd : (0 < w)%nat -> In scheme [1; 2] ->
+Theorem codec_body_encodes scheme w big sp n ip h wd : In scheme [1; 2] ->
   runG rec value ip h wd (codec_body scheme (Z.of_nat w) big sp [VInt n]) =
   match enc (scheme =? 2) (match big with Some true => true | _ => false end) w n with
   | Some bs => DoneG h wd (inl (VBytes bs)) 0 | None => DoneG h wd (inr (mkerr c_value sp)) 0 end.
 Proof.
-  intros W S. unfold codec_body, enc, P. cbn [map_strict force bind runG].
+  intros S. unfold codec_body, enc, P. cbn [map_strict force bind runG].
   assert (E : (scheme =? 1) || (scheme =? 2) = true) by (destruct S as [<-|[<-|[]]]; reflexivity). rewrite E.
   cbn [check_type forallb orp is_int orb andb bind]. replace (Z.of_nat w <? 0) with false by (symmetry; apply Z.ltb_ge; lia).
-  replace (Z.of_nat w =? 0) with false by (symmetry; apply Z.eqb_neq; lia). rewrite Nat2Z.id.
-  destruct (scheme =? 2); destruct ((_ <=? n) && (n <? _)); reflexivity.
+  rewrite Nat2Z.id.
+  destruct (scheme =? 2); [destruct ((_ <=? 2 * n) && (2 * n <? _))|destruct ((_ <=? n) && (n <? _))]; reflexivity.
 Qed.
 Theorem codec_body_decodes scheme w big sp bs ip h wd : In scheme [1; 2] ->
   runG rec value ip h wd (codec_body scheme w big sp [VBytes bs]) =
@@ -52,7 +52,7 @@ Proof.
   intros S. unfold codec_body, dec, P. cbn [map_strict force bind runG].
   assert (E : (scheme =? 1) || (scheme =? 2) = true) by (destruct S as [<-|[<-|[]]]; reflexivity). rewrite E.
   cbn [check_type forallb orp is_int is_bytes orb andb bind runG].
-  replace (Z.of_nat (length bs) =? 0) with (Nat.eqb (length bs) 0) by (destruct (length bs); reflexivity). reflexivity.
+  reflexivity.
 Qed.
 End Link.
 Print Assumptions shift_right_value. Print Assumptions bitwise_module_is_bw. Print Assumptions codec_body_encodes. Print Assumptions codec_body_decodes.
